@@ -1180,11 +1180,14 @@ func (e *Enc) funcTypeConversion(fr *Frame, st *State, in *ssa.ChangeType, x Val
 				}
 				for i, rq := range fc.Requires {
 					ec := &EvalCtx{e: e, st: st, old: st, bind: bind, spec: fc.Spec}
-					cnd, err := ec.evalBool(rq.Expr)
+					budget := conjBudget
+					cs, err := ec.evalConjuncts(rq.Expr, &budget)
 					if err != nil {
 						continue // mentions other parameters: not a receiver invariant
 					}
-					e.oblig(st, "refine", e.siteLabel(fr, fmt.Sprintf("receiver-invariant:%s:%d", lastPart(funcKey(target)), i+1), in.Pos()), cnd, in.Pos(), []string{"C19"}, rq)
+					for ci, cnd := range cs {
+						e.oblig(st, "refine", e.siteLabel(fr, fmt.Sprintf("receiver-invariant:%s:%d%s", lastPart(funcKey(target)), i+1, conjSuffix(ci)), in.Pos()), cnd, in.Pos(), []string{"C19"}, rq)
+					}
 				}
 			}
 		}
